@@ -351,6 +351,167 @@ for _prop in ("C01", "C02"):
     scenario(_prop, [PROD + ".sample_random_uniform", DOMAIN + "._repeat_params"], configs=["independent"])(_g)
 
 
+def _product_dependent_rows(S, prop, A, B, dom, n):
+    """K >= 2 parameter rows: the loop over the rows; the inner single-row calls go through the function's own
+    contract (proved by the configurations none / 1)"""
+    from .samplers import acc_points_loop
+    from tpv.core import STensor
+    from tpv.tlib import Tensor
+
+    K = S.int("K", 2)
+    Tt = S.tensor("tt", [K, 1])
+    params = S.new(POINTS, Tt, S.new(R1, "t"))
+
+    def Pk(k, row):
+        p = [zreal(Tt.val.at([(k,), ()]))]
+        return z3.And(A.in_pred(row[:2], [row[2]] + p), B.in_pred([row[2]], p))
+
+    def summary(I, fn, args, kwargs):
+        env = I.bind_args(fn, args, kwargs)
+        pr = env.vars["params"]
+        if I.truth(I.compare(ast.Gt(), I.pylib.b_len(I, pr), 1)):
+            return NotImplemented
+        I.ctx.oblige(f"pre@{I.ctx.loc}:inner-call-n-at-least-one", z3.And(zint(env.vars["n"]) >= 1, env.vars["self"] is dom), (), "pre")
+        I.ctx.oblige(f"pre@{I.ctx.loc}:inner-call-one-parameter-row", zint(I.pylib.b_len(I, pr)) == 1, (), "pre")
+        tk = zreal(coords_of(I, pr)["t"].at([(), ()]))
+        nn = zint(env.vars["n"])
+        f = z3.Function(core.fresh_name("prod_pts"), z3.IntSort(), z3.IntSort(), z3.RealSort())
+
+        def fnv(idx):
+            j = zint(idx[0][0])
+            row = [f(j, z3.IntVal(c)) for c in range(3)]
+            I.ctx.axiom(z3.Implies(z3.And(j >= 0, j < nn), z3.And(A.in_pred(row[:2], [row[2], tk]), B.in_pred([row[2]], [tk]))))
+            return core.select_comp(idx[1][0], 3, [(lambda x=x: x) for x in row])
+
+        sp = I.binop(ast.Mult(), S.new(R2, "x"), S.new(R1, "y"))
+        return I.instantiate(I.repo.find(POINTS), [Tensor(STensor([core.dim_of(env.vars["n"]), Dim([3])], fnv, "real")), sp], {})
+
+    S.use_contract(PROD + ".sample_random_uniform", summary)
+    S.loop(PROD + ".sample_random_uniform", 0, acc_points_loop(S, "points", [("x", R2), ("y", R1)], n, 3, lambda k, j, row: Pk(k, row), "parameter-loop", initial="empty"))
+    pts = S.method(dom, "sample_random_uniform", n, None, params)
+    t = tensor_of(pts)
+    ok = t.rank == 2 and t.shape[1].concrete() == 3
+    S.ensure("three-columns", ok)
+    if not ok:
+        return
+    S.ensure("space-is-product-space", list(S.getattr(pts, "space").native.keys()) == ["x", "y"])
+    grouped = len(t.shape[0].factors) == 2 and z3.eq(t.shape[0].factors[0], zint(K))
+    if prop == "C02":
+        S.ensure("n-rows-per-parameter-row", t.shape[0].size_term() == zint(K) * zint(n))
+        S.ensure("grouped-by-parameter-row", grouped)
+        return
+    S.ensure("row-structure", grouped)
+    if grouped:
+        S.forall("row-in-the-product-set-first-factor-at-its-partner-point", t, lambda q: Pk(zint(q[0][0]), [zreal(t.at([q[0], (c,)])) for c in range(3)]))
+
+
+def _product_dependent_sampling(S, prop):
+    """ProductDomain.sample_random_uniform(n, params) where the first factor depends on the second (ratio of
+    uniforms): _sample_uniform_b_points + the accumulate/cut loop.
+    Loop contract: n_points >= 1 is the number of rows of b_points; every row of b_points lies in B at the parameter
+    row; new_params is empty (no parameters) or has n_points rows all equal to the parameter row.
+    post: n rows (x, y) with y in B(p) and x in A(y, p).  Termination not proved."""
+    from tpv.spec import LoopSpec
+    from tpv.tlib import Tensor
+    from tpv.core import STensor
+
+    withp = S.cfg
+    A = abstract_domain(S, "A", S.new(R2, "x"), {"y": 1, "t": 1} if withp != "none" else {"y": 1})
+    B = abstract_domain(S, "B", S.new(R1, "y"), {"t": 1} if withp != "none" else None)
+    dom = S.new(PROD, A.obj, B.obj)
+    S.ensure("dependency-detected", S.getattr(dom, "_is_constant") is False)
+    n = S.int("n", 1)
+    kinds = S.loop_kinds(PROD + ".sample_random_uniform")
+    per_row = kinds[:1] == ["for"]  # several parameter rows are handled one at a time by an outer loop
+    if withp == "K" and per_row:
+        _product_dependent_rows(S, prop, A, B, dom, n)
+        return
+    weak = withp == "K"  # no outer loop: the single-row invariant is not expected to hold; only shapes are kept
+    if withp == "none":
+        params, pv = empty_points(S), []
+    elif withp == "1":
+        Tt = S.tensor("tt", [1, 1])
+        params = S.new(POINTS, Tt, S.new(R1, "t"))
+        pv = [zreal(Tt.val.at([(), ()]))]
+    else:
+        K = S.int("K", 2)
+        Tt = S.tensor("tt", [K, 1])
+        params = S.new(POINTS, Tt, S.new(R1, "t"))
+        pv = [z3.Real("any_t")]
+
+    def make(I_, env, _):
+        m = z3.Int(core.fresh_name("npts"))
+        I_.ctx.assume(m >= 1)
+        nm = core.fresh_name("BP")
+        f = z3.Function(nm, z3.IntSort(), z3.RealSort())
+
+        def fn(idx):
+            r = zint(idx[0][0])
+            if not weak:
+                I_.ctx.axiom(z3.Implies(z3.And(r >= 0, r < m), B.in_pred([f(r)], pv)))
+            return f(r)
+
+        env.vars["b_points"] = S.new(POINTS, Tensor(STensor([Dim([m]), Dim([])], fn, "real", nm)), S.new(R1, "y"))
+        if withp == "none":
+            env.vars["new_params"] = empty_points(S)
+        else:
+            env.vars["new_params"] = S.new(POINTS, Tensor(STensor([Dim([m]), Dim([])], lambda idx: pv[0], "real")) if not weak else S.tensor(core.fresh_name("NPAR"), [m, 1]), S.new(R1, "t"))
+        env.vars["n_points"] = Sym(m, "int")
+
+    def check(I_, env, _, tag):
+        bp, npar, cnt = env.vars.get("b_points"), env.vars.get("new_params"), env.vars.get("n_points")
+        ok = hasattr(bp, "f") and "_t" in bp.f and hasattr(npar, "f") and "_t" in npar.f
+        S.ensure(f"ratio-loop/{tag}:state-shape", ok, kind="inv")
+        if not ok:
+            return
+        t = bp.f["_t"].val
+        S.ensure(f"ratio-loop/{tag}:b-points-one-column", t.rank == 2 and t.shape[1].is_one and list(bp.f["space"].native.keys()) == ["y"], kind="inv")
+        S.ensure(f"ratio-loop/{tag}:count-is-number-of-rows-and-positive", z3.And(zint(cnt) == t.shape[0].size_term(), zint(cnt) >= 1), kind="inv")
+        if not weak:
+            S.forall(f"ratio-loop/{tag}:every-b-point-in-the-second-factor", t, lambda q: B.in_pred([zreal(t.at([q[0], ()]))], pv), kind="inv")
+        tp = npar.f["_t"].val
+        if withp == "none":
+            S.ensure(f"ratio-loop/{tag}:no-parameters", list(npar.f["space"].native.keys()) == [], kind="inv")
+        else:
+            okp = tp.rank == 2 and tp.shape[1].is_one and list(npar.f["space"].native.keys()) == ["t"]
+            S.ensure(f"ratio-loop/{tag}:parameter-rows-shape", okp, kind="inv")
+            if okp:
+                S.ensure(f"ratio-loop/{tag}:as-many-parameter-rows", tp.shape[0].size_term() == t.shape[0].size_term(), kind="inv")
+                if not weak:
+                    S.forall(f"ratio-loop/{tag}:parameter-rows-unchanged", tp, lambda q: zreal(tp.at([q[0], ()])) == pv[0], kind="inv")
+
+    S.loop(PROD + ".sample_random_uniform", 1 if per_row else 0, LoopSpec(make, check, modifies=["b_points", "new_params", "n_points"], label="ratio-loop"))
+    pts = S.method(dom, "sample_random_uniform", n, None, params)
+    t = tensor_of(pts)
+    ok = t.rank == 2 and t.shape[1].concrete() == 3
+    S.ensure("three-columns", ok)
+    if not ok:
+        return
+    S.ensure("space-is-product-space", list(S.getattr(pts, "space").native.keys()) == ["x", "y"])
+    if weak:
+        S.ensure("n-rows-per-parameter-row", t.shape[0].size_term() == zint(K) * zint(n))
+        S.ensure("grouped-by-parameter-row", len(t.shape[0].factors) == 2 and z3.eq(t.shape[0].factors[0], zint(K)))
+        return
+    if prop == "C02":
+        S.ensure("n-rows", t.shape[0].size_term() == zint(n))
+        return
+
+    def goal(q):
+        x = [zreal(t.at([q[0], (c,)])) for c in range(2)]
+        y = [zreal(t.at([q[0], (2,)]))]
+        return z3.And(A.in_pred(x, y + pv), B.in_pred(y, pv))
+
+    S.forall("row-in-the-product-set-first-factor-at-its-partner-point", t, goal)
+
+
+for _prop in ("C01", "C02"):
+    def _gd(S, _prop=_prop):
+        _product_dependent_sampling(S, _prop)
+    _gd.__name__ = "product_dependent_sampling_random_n"
+    _gd.__doc__ = _product_dependent_sampling.__doc__
+    scenario(_prop, [PROD + ".sample_random_uniform", PROD + "._sample_uniform_b_points", DOMAIN + "._repeat_params"], configs=["none", "1", "K"])(_gd)
+
+
 def _motion_sampling(S, prop, kind, method):
     """Translate / Rotate of an abstract domain: every returned row is the image of a point of the inner
     domain at the same parameter row:  In_D(x - tau(p_k), p_k)  resp.  In_D(R^-1(x - a) + a, p_k)"""
@@ -976,6 +1137,39 @@ for _prop in ("C01", "C02"):
     _kbg.__doc__ = _boundary_grid_n.__doc__
     scenario(_prop, [SH + "_boundary_grid_with_n", SH + "_check_points_on_main_boundary", UNIONB + ".sample_grid", CUTB + ".sample_grid", INTERB + ".sample_grid"],
              configs=[f"{o}/{w}" for o in ("union", "cut", "intersection") for w in ("1", "none")])(_kbg)
+
+
+def _union_grid_n(S, prop):
+    """UnionDomain.sample_grid(n, params) for at most one parameter row (more rows are rejected with a ValueError by
+    int(tensor)): _sample_grid_with_n, _sample_in_b.  post: exactly n rows, each in A or in B."""
+    withp = S.cfg
+    A, B, dom = mk_bool(S, "union", with_params=(withp != "none"))
+    n = S.int("n", 1)
+    if withp == "none":
+        params, pv = empty_points(S), []
+    else:
+        Tt = S.tensor("tt", [1, 1])
+        params = S.new(POINTS, Tt, S.new(R1, "t"))
+        pv = [zreal(Tt.val.at([(), ()]))]
+    pts = S.method(dom, "sample_grid", n, None, params)
+    t = tensor_of(pts)
+    ok = t.rank == 2 and t.shape[1].concrete() == 2
+    S.ensure("two-columns", ok)
+    if not ok:
+        return
+    if prop == "C02":
+        S.ensure("n-rows", t.shape[0].size_term() == zint(n))
+        S.ensure("space-is-domain-space", S.I.truth(S.I.compare(ast.Eq(), S.getattr(pts, "space"), S.getattr(dom, "space"))))
+        return
+    S.forall("every-row-in-the-union", t, lambda q: z3.Or(A.in_pred(cols(t, q[0], 2), pv), B.in_pred(cols(t, q[0], 2), pv)))
+
+
+for _prop in ("C01", "C02"):
+    def _kug(S, _prop=_prop):
+        _union_grid_n(S, _prop)
+    _kug.__name__ = "union_grid_n"
+    _kug.__doc__ = _union_grid_n.__doc__
+    scenario(_prop, [UNION + ".sample_grid", UNION + "._sample_grid_with_n", UNION + "._sample_in_b", UNION + "._points_lay_in_other_domain", UNION + "._get_volume"], configs=["none", "1"])(_kug)
 
 
 # ----------------------------------------------------------------------------- C18 boxes of moved domains
